@@ -35,7 +35,9 @@ def run(ctx):
     for it in range(n):
         if it % 2 == 0:
             if it % 4 == 0:
-                (va, vb), unit = impl.scaled_family(ctx, 2, pinv=0.3)
+                # (the units are cycled, not drawn: the smallest ones are where absolute tolerances bite)
+                SC = (F(1, 50000), F(1, 20000), F(1, 5000), F(1, 200), F(1000))
+                (va, vb), unit = impl.scaled_family(ctx, 2, pinv=0.3, force=SC[(it // 4) % len(SC)])
             else:
                 va, vb = impl.leaf_family(ctx, 2, pinv=0.3)
             A, B = impl.poly(va), impl.poly(vb)
